@@ -412,7 +412,22 @@ def b_sorted(it, seq, key=None, reverse=False):
             except TypeError as e:
                 raise PyExc('TypeError', str(e))
             return [items[i] for i in order]
-    raise Unsupported('sorted with symbolic keys')
+    # symbolic keys on a short concrete list: stable insertion sort, forking on each comparison
+    if key is None:
+        keys = list(items)
+    if len(items) > 5:
+        raise Unsupported('sorted with symbolic keys on a long list')
+    order = []
+    for i in range(len(items)):
+        pos = len(order)
+        # stable: insert after every element whose key is <= this key (or >= when reversed)
+        for j in range(len(order)):
+            c = compare(it, '>' if not reverse else '<', keys[order[j]], keys[i])
+            if it.branch(truth(it, c)):
+                pos = j
+                break
+        order.insert(pos, i)
+    return [items[i] for i in order]
 
 
 def b_print(it, *args, **kw):
